@@ -173,9 +173,21 @@ func VH_C02_OpenReply() {
 
 // two asynchronous writes issued by one goroutine take effect in issue order
 //
-// verif: mode=int unwind=6
+//verif: mode=int unwind=6 tier=thorough
 func VH_C02_AsyncWriteOrder() {
-	x := vOutboundSetupX(vNondetBool("et"), vCfg("any_shape", 0) == 1)
+	vAsyncOrder(false)
+}
+
+// the same with the urgent queue "saturated" (scaled stand-in for a backlog of >= 1024 urgent tasks, where low-priority
+// requests are shunted to the low-priority queue): asynchronous writes must still take effect in issue order
+//
+//verif: mode=int unwind=6
+func VH_C02_AsyncWriteOrderSaturated() {
+	vAsyncOrder(true)
+}
+
+func vAsyncOrder(saturated bool) {
+	x := vOutboundSetupX(vNondetBool("et"), !saturated && vCfg("any_shape", 0) == 1)
 	n1 := vNondetInt("n1")
 	n2 := vNondetInt("n2")
 	vAssume(0 <= n1 && n1 <= vMaxLen() && 0 <= n2 && n2 <= vMaxLen())
@@ -187,12 +199,18 @@ func VH_C02_AsyncWriteOrder() {
 		}
 		return p2[i-n1]
 	})
+	if saturated {
+		x.w.el.poller.VSetSaturated()
+	}
 	cb := 0
 	first := vNondetBool("first_is_writev")
 	if first {
 		_ = x.c.AsyncWritev([][]byte{p1}, func(Conn, error) error { cb++; return nil })
 	} else {
 		_ = x.c.AsyncWrite(p1, func(Conn, error) error { cb++; return nil })
+	}
+	if saturated && vNondetBool("backlog_drained_between_the_requests") {
+		x.w.el.poller.VSetUnsaturated()
 	}
 	_ = x.c.AsyncWrite(p2, func(Conn, error) error { cb++; return nil })
 	r1, e1 := x.w.el.poller.VRunOne()
